@@ -93,18 +93,24 @@ func unpackB4(data byte, b0 *bool, b1 *bool, b2 *bool, b3 *bool) error {
 func packF16(f float32) []byte {
 	buffer := []byte{0, 0, 0}
 
-	if f > 670760.96 {
-		f = 670760.96
-	} else if f < -671088.64 {
-		f = -671088.64
+	// Saturate at the largest magnitude that is representable inside the documented range
+	// [-670760, 670760] of the 9.xxx types (mantissa 2046, exponent 15); anything beyond it would
+	// be rounded to a value their decoders reject (0x7FFF denotes invalid data).
+	if f > 670433.28 {
+		f = 670433.28
+	} else if f < -670433.28 {
+		f = -670433.28
 	}
 
-	signedMantissa := int(f * 100)
+	// Find the smallest exponent whose rounded mantissa fits. Rounding (instead of truncating)
+	// makes a value that was decoded from the bus re-encode to itself.
+	value := float64(f) * 100
+	signedMantissa := int(math.Round(value))
 	exp := 0
 
-	for signedMantissa > 2047 || signedMantissa < -2048 {
-		signedMantissa /= 2
+	for (signedMantissa > 2047 || signedMantissa < -2048) && exp < 15 {
 		exp++
+		signedMantissa = int(math.Round(value / float64(uint(1)<<uint(exp))))
 	}
 
 	buffer[1] |= uint8(exp&15) << 3
